@@ -23,7 +23,7 @@ type c26QWord struct {
 }
 
 func c26QuoteWords(thorough bool) []c26QWord {
-	chars := []string{" ", "$", "\\", "*", "'", "\"", "a", "~", "#"}
+	chars := []string{" ", "$", "\\", "*", "'", "\"", "a", "~", "#", "."}
 	if thorough {
 		chars = append(chars, "?", "[", "]", ";", "&", "|", "(", "<", "`", "=", "{", ",", "-", "!", "\t", "é", "%", ":", "@", "^")
 	}
@@ -113,7 +113,15 @@ func c26GenQuoting(thorough bool, emit c26EmitFn) {
 			"IFS= read -r s <<< " + W + "; p 10 \"$s\"\n" +
 			"p 11 " + W + "\n" +
 			"for i in " + W + "; do p 12 \"$i\"; done\n" +
-			"[[ x" + W + " < x" + L + " ]]; echo 14:$?\n"
+			"[[ x" + W + " < x" + L + " ]]; echo 14:$?\n" +
+			// quoted and escaped parts of a regular expression match literally
+			"[[ " + L + " =~ ^" + W + "$ ]]; echo 15:$?\n" +
+			"[[ " + c26QSingle(strings.Map(func(r rune) rune {
+				if r == 'x' || r == 'y' {
+					return r
+				}
+				return '_'
+			}, w.lit)) + " =~ ^" + W + "$ ]]; echo 16:$?\n"
 		emit("quote-compare["+w.desc+"]", b)
 		// group C: arguments, substitutions, redirection targets
 		c := pre +
